@@ -48,6 +48,11 @@ theorem TInv.cancelKindFor_fst {w : World} (h : TInv ex w) (p : Pid) (act : Nat)
   unfold Sim.cancelKindFor
   exact TInv.foldl (fun w q h => by tinv) _ h
 macro_rules | `(tactic| tinv_step) => `(tactic| with_reducible apply TInv.cancelKindFor_fst)
+theorem TInv.cancelUserAll_fst {w : World} (h : TInv ex w) :
+    TInv ex (cancelUserAll w).1 := by
+  unfold Sim.cancelUserAll
+  exact TInv.foldl (fun w q h => by tinv) _ h
+macro_rules | `(tactic| tinv_step) => `(tactic| with_reducible apply TInv.cancelUserAll_fst)
 
 theorem TInv.recordRes {w : World} (h : TInv ex w) (r : Nat) : TInv ex (recordRes w r) := by
   unfold Sim.recordRes; tinv
